@@ -558,4 +558,56 @@ theorem C09_merge_idem_as_maps (σ ρ : Subst) (h : merge σ σ = some ρ) : ∀
   obtain ⟨a1, _, a3⟩ := C09_merge_is_least_upper_bound σ σ ρ h
   exact C09_ext_antisymm (a3 σ (Ext.refl σ) (Ext.refl σ)) a1
 
+/-- `merge` refuses conflicting bindings AND ONLY those: for a right argument without repeated keys it succeeds exactly when
+    every parameter bound on both sides is bound to the same value ("every parameter is bound to one value consistently
+    across all of its occurrences" — and no consistent pair is ever refused) -/
+theorem C09_merge_succeeds_iff : ∀ (τ σ : Subst), (τ.map Prod.fst).Nodup →
+    ((∃ ρ, merge σ τ = some ρ) ↔ ∀ n v w, (n, v) ∈ τ → lookup σ n = some w → v = w)
+  | [], σ, _ => by simp [merge]
+  | (n, v) :: rest, σ, hn => by
+      simp only [List.map_cons, List.nodup_cons] at hn
+      obtain ⟨hnot, hrest⟩ := hn
+      simp only [merge]
+      cases hl : lookup σ n with
+      | some v' =>
+        by_cases hv : v = v'
+        · simp only [hv, if_true]
+          rw [C09_merge_succeeds_iff rest σ hrest]
+          constructor
+          · intro h m u w hm hw
+            rcases List.mem_cons.1 hm with hm | hm
+            · cases hm; rw [hl] at hw; cases hw; rfl
+            · exact h m u w hm hw
+          · intro h m u w hm hw
+            exact h m u w (List.mem_cons_of_mem _ hm) hw
+        · simp only [hv, if_false]
+          constructor
+          · rintro ⟨_, h⟩; cases h
+          · intro h; exact absurd (h n v v' (by simp) hl) hv
+      | none =>
+        simp only
+        rw [C09_merge_succeeds_iff rest (σ ++ [(n, v)]) hrest]
+        have key : ∀ m, m ∈ rest.map Prod.fst → lookup (σ ++ [(n, v)]) m = lookup σ m := by
+          intro m hm
+          have hne : n ≠ m := fun e => hnot (e ▸ hm)
+          rw [lookup_append]
+          simp [lookup, hne]
+        constructor
+        · intro h m u w hm hw
+          rcases List.mem_cons.1 hm with hm | hm
+          · cases hm; rw [hl] at hw; cases hw
+          · have hk := key m (List.mem_map.2 ⟨(m, u), hm, rfl⟩)
+            exact h m u w hm (hk ▸ hw)
+        · intro h m u w hm hw
+          have hk := key m (List.mem_map.2 ⟨(m, u), hm, rfl⟩)
+          exact h m u w (List.mem_cons_of_mem _ hm) (hk ▸ hw)
+
+/-- the side condition is needed: a right argument that repeats a key with two values is refused even by the empty
+    substitution (the matcher never produces one: `merge_nodup`) -/
+theorem C09_merge_succeeds_iff_counterexample :
+    merge [] [("_ŠČ0", Val.identity), ("_ŠČ0", Val.ty (.node "u8" [] []))] = none ∧
+    (∀ n v w, (n, v) ∈ [("_ŠČ0", Val.identity), ("_ŠČ0", Val.ty (.node "u8" [] []))] → lookup [] n = some w → v = w) := by
+  refine ⟨by decide, ?_⟩
+  intro n v w _ h; simp [lookup] at h
+
 end DI
